@@ -809,6 +809,101 @@ async def run_real(path: str, kind: str, fail_connect: bool, wait_first_save: bo
     return obs
 
 
+# ---- stretches of virtual time anywhere (a whole event loop on virtual time) ---------------------
+
+
+class VirtualTimeLoop(asyncio.SelectorEventLoop):
+    """An event loop whose clock is virtual: whenever nothing is ready to run, time jumps to the next timer.
+    Every timer of the code under test (sleeps, asyncio.timeout, wait_for, call_later) then runs in virtual time,
+    wherever it is written.  Only usable without executor threads (the fake file layer is used)."""
+
+    def __init__(self) -> None:
+        super().__init__()
+        self._vnow = 0.0
+
+    def time(self) -> float:
+        return self._vnow
+
+    def _run_once(self) -> None:
+        if not self._ready:
+            while self._scheduled and self._scheduled[0]._cancelled:     # noqa: SLF001
+                handle = heapq.heappop(self._scheduled)
+                handle._scheduled = False                                 # noqa: SLF001
+                self._timer_cancelled_count = max(0, self._timer_cancelled_count - 1)
+            if self._scheduled and self._scheduled[0]._when > self._vnow:  # noqa: SLF001
+                self._vnow = self._scheduled[0]._when                     # noqa: SLF001
+        super()._run_once()
+
+
+def run_slow_connect(path: str, connect_takes: int, connect_fails: bool, body_takes: int = 0) -> dict:
+    """A connect attempt that neither succeeds nor fails for `connect_takes` virtual seconds (a host that drops
+    packets: the OS gives up after about two minutes), then fails or succeeds; `body_takes` seconds in the body."""
+
+    async def main() -> dict:
+        v0 = v0_nodes()
+        with open(path, "w", encoding="utf-8") as f:
+            schema = NodeSchema()
+            f.write(json.dumps({str(k): schema.dump(n) for k, n in v0.items()}, sort_keys=True, indent=2))
+        clock = VirtualClock()
+
+        class LoopProxy(AsyncioProxy):          # records the saver task, sleeps on the (virtual-time) loop
+            def sleep(self, delay, result=None):
+                return asyncio.sleep(delay, result)
+
+        proxy = LoopProxy(clock)
+        ctl = Controller(clock, proxy)
+        loop = asyncio.get_running_loop()
+
+        async def waits():
+            await asyncio.sleep(connect_takes)
+
+        transport = FlakyTransport(connect_fails=connect_fails, connect_waits=waits)
+        obs: dict = {"entered": False, "loaded_ok": None}
+        before = asyncio.all_tasks()
+        exc = None
+        reg_at_exit = None
+        t_end = None
+        with mock.patch.object(pers_mod, "aiofiles", FakeFiles(ctl)), mock.patch.object(pers_mod, "asyncio", proxy):
+            gateway = Gateway(transport, Config(persistence_file=path))
+            try:
+                async with gateway:
+                    obs["entered"] = True
+                    obs["loaded_ok"] = canon(gateway.nodes) == canon(v0)
+                    if body_takes:
+                        await asyncio.sleep(body_takes)
+                    gateway.nodes[42] = Node(42, 17, "2.0")
+                    reg_at_exit = canon(gateway.nodes)
+            except BaseException as e:  # noqa: BLE001
+                exc = e
+            t_end = loop.time()
+            if reg_at_exit is None:
+                reg_at_exit = canon(gateway.nodes)
+            for _ in range(5):
+                await asyncio.sleep(0)
+            leftovers = [t for t in asyncio.all_tasks() - before if t is not asyncio.current_task() and not t.done()]
+            names = sorted({getattr(t.get_coro(), "__qualname__", "?") for t in leftovers})
+            content_at_end = file_canon(path)
+            # an hour later: nothing may have touched the file behind the application's back
+            if leftovers:
+                await asyncio.sleep(3600)
+            content_later = file_canon(path)
+            for t in leftovers:
+                t.cancel()
+            if leftovers:
+                await asyncio.wait(leftovers, timeout=GUARD)
+        obs.update({"outcome": classify(exc), "error": None if exc is None else f"{type(exc).__name__}: {exc}"[:200],
+                    "ended_at": t_end, "leftover_tasks": len(leftovers), "leftover_names": names, "saver_alive": bool(leftovers),
+                    "disconnect_called": "disconnect" in transport.calls, "connect_called": "connect" in transport.calls,
+                    "started": True, "final_save_done": content_at_end == reg_at_exit,
+                    "file_is_registry_at_exit": content_at_end == reg_at_exit,
+                    "file_changed_afterwards": content_later != content_at_end,
+                    "saver_saves": [t for who, kind, t in ctl.log if who == "saver" and kind == "open:w"],
+                    "file": "truncated" if content_at_end == "" else "holds:1" if content_at_end == reg_at_exit else "other"})
+        return obs
+
+    return asyncio.run(main(), loop_factory=VirtualTimeLoop)
+
+
 # ---- the run ---------------------------------------------------------------------------------
 
 
@@ -960,6 +1055,23 @@ def run_c16(ctx) -> Corr:
                           f"file is registry at exit: {obs2['file_is_registry_at_exit']}, saver saves: {obs2['saver_saves']}")
 
     asyncio.run(real())
+
+    # a connect attempt that stays pending for a long stretch of (virtual) time before it fails or succeeds, and a
+    # long-lived body: the whole event loop runs on virtual time, so every timer in the code under test is covered
+    for takes, fails, body in ((127, True, 0), (127, False, 0), (5, True, 0), (45, False, 2000), (1000, True, 0), (31, False, 901)):
+        case = {"scenario": "slow connect", "connect_takes_s": takes, "connect_fails": fails, "body_takes_s": body}
+        try:
+            obs = run_slow_connect(path, takes, fails, body)
+        except BaseException as e:  # noqa: BLE001
+            corr.violate(f"slow-connect scenario crashed: {type(e).__name__}: {e}"[:300], case)
+            continue
+        ok = oracle(corr, "context entered through a slow connect", case, obs, {"connect": True} if fails else {})
+        if ok and obs.get("file_changed_afterwards"):
+            corr.violate("the persistence file was rewritten after the context had been left", {**case, "observed": obs})
+        if ok and fails and obs["ended_at"] is not None and abs(obs["ended_at"] - takes) > 1:
+            corr.notes.append(f"slow connect: the failure surfaced at t={obs['ended_at']} s, the connect attempt ended at t={takes} s")
+        corr.count("slow-connect")
+        corr.case(("slow-connect", takes, fails, body), True, {"case": case, "outcome": obs["outcome"], "saver_saves": obs["saver_saves"][:6]})
 
     if ctx.model_ok and model_lines:
         outs = lib.run_model(model_lines, driver=DRIVER)
